@@ -42,7 +42,7 @@ EPS_D = {False: Fraction(1, 10 ** 10), True: Fraction(2, 10 ** 5)}     # x64 / f
 EPS_O = {False: 1e-7, True: 2e-4}                                         # oracle (scipy vs tfp) tolerance
 CORPUS = os.path.join(common.VERIF, "harness", "corpus")
 
-FORCED = ["user", "free", "both", "norole", "transient", "transform", "auto", "auto", "npdist", "npdist", "inplace", "inplace",
+FORCED = ["reject", "reject", "rebuild", "rebuild", "user", "free", "both", "norole", "transient", "transform", "auto", "auto", "npdist", "npdist", "inplace", "inplace",
           "mvnd", "weakdist", "nodist", "matrix", "distreg", "distreg"]
 
 
@@ -78,6 +78,10 @@ def features(prog) -> list[str]:
             fs.append("role.both")
         if d and v["role"] == "none":
             fs.append("role.none")
+    if len(prog.get("builds") or []) > 1:
+        fs.append("build_history." + "+".join(prog["builds"]))
+    if prog.get("reject"):
+        fs.append("has_raising_assignment")
     if prog.get("add_mode") == "roots":
         fs.append("inner_vars_reached_as_inputs_only")
     if prog["free"]:
@@ -98,29 +102,41 @@ def run_program(prog: dict, steps: list[dict], pid, want_inputs=True, jit=False)
     """build the real model, apply the positions, observe; one case per observation point"""
     import liesel.goose as gs
     cases = []
+    kdone, bi = 0, 0
     try:
-        B = kit.build(prog)
-        iface = gs.LieselInterface(B.model)
-        o = kit.observe(B, iface, want_inputs=want_inputs and not prog["f32"])
-        flip = None
-        try:
-            B2 = kit.build(prog, flip_per_obs=True)
-            o2 = kit.observe(B2)
-            flip = {"reads": o2["reads"][0], "stored_shapes": [(n["name"], n["stored"][0] if n["stored"] else None) for n in o2["nodes"]]}
-        except Exception as ex:   # noqa
-            flip = {"error": repr(ex)}
-        cases.append({"pid": pid, "k": 0, "prog": prog, "positions": [], "mode": "build", "obs": strip_obs(o), "flip": flip})
-        prev = o["state"]
-        for k, st in enumerate(steps):
-            kit.apply_position(B, st["pos"], st["mode"] == "manual", inplace=st["mode"] == "inplace")
-            o = kit.observe(B, iface, prev_state=prev, pos=st["pos"], want_inputs=want_inputs and not prog["f32"],
-                            jit=jit and k == len(steps) - 1)
-            cases.append({"pid": pid, "k": k + 1, "prog": prog, "positions": steps[:k + 1], "mode": st["mode"],
-                          "obs": strip_obs(o), "flip": None})
+        Bs = kit.build_all(prog)
+        for bi, B in enumerate(Bs):
+            kdone = 0
+            last = bi == len(Bs) - 1
+            iface = gs.LieselInterface(B.model)
+            o = kit.observe(B, iface, want_inputs=want_inputs and not prog["f32"])
+            flip = None
+            if last:
+                try:
+                    B2 = kit.build(prog, flip_per_obs=True)
+                    o2 = kit.observe(B2)
+                    flip = {"reads": o2["reads"][0]}
+                except Exception as ex:   # noqa
+                    flip = {"error": repr(ex)}
+            cases.append({"pid": pid, "k": 0, "build": bi, "how": B.how, "prog": prog, "positions": [], "mode": "build",
+                          "obs": strip_obs(o), "flip": flip})
+            if not (last or bi == 0):
+                continue          # the positions are applied to the first and to the last model of the history
             prev = o["state"]
+            for k, st in enumerate(steps):
+                window = None
+                if st["mode"] == "reject":
+                    window = kit.reject_window(B, st)
+                kit.apply_position(B, st["pos"], st["mode"] == "manual", inplace=st["mode"] == "inplace")
+                o = kit.observe(B, iface, prev_state=prev, pos=st["pos"], want_inputs=want_inputs and not prog["f32"],
+                                jit=jit and last and k == len(steps) - 1)
+                cases.append({"pid": pid, "k": k + 1, "build": bi, "how": B.how, "prog": prog, "positions": steps[:k + 1],
+                              "mode": st["mode"], "obs": strip_obs(o), "flip": None, "window": window})
+                kdone = k + 1
+                prev = o["state"]
     except Exception as ex:
         import traceback
-        cases.append({"pid": pid, "k": len(cases), "prog": prog, "positions": steps[:len(cases)], "mode": "raised",
+        cases.append({"pid": pid, "k": kdone, "build": bi, "prog": prog, "positions": steps[:kdone + 1], "mode": "raised",
                       "obs": None, "flip": None, "raised": repr(ex), "traceback": traceback.format_exc()[-1500:]})
     for c in cases:
         c["exp"] = kit.evaluate(prog, c["positions"])
@@ -171,6 +187,10 @@ def generate(ctx):
                 prog = kit.gen_distreg(rnd, force)
             else:
                 prog = kit.gen_hier(rnd, rnd.randint(2, 7), None if force == "inplace" else force)
+                for _ in range(30):
+                    if force != "reject" or prog["reject"]:
+                        break
+                    prog = kit.gen_hier(rnd, rnd.randint(3, 7), force)
                 if force == "inplace":
                     prog["f32"] = rep % 2 == 1
             plan.append((prog, kit.gen_positions(rnd, prog, rnd.choice([2, 3]) if force == "inplace" else rnd.choice([1, 2, 3]), force),
@@ -185,8 +205,9 @@ def generate(ctx):
     njit, jit_limit = 0, (6 if ctx.quick else 40)
     for pid, (prog, steps, stratum) in enumerate(plan):
         # NumPy-evaluated densities cannot be traced; only models built from the JAX substrate are jitted
-        numpy_dist = prog["kind"] == "hier" and any(
+        numpy_dist = prog["kind"] == "hier" and (any(
             d["dist"] and d["dist"].get("impl", "jax") != "jax" for d in prog["vars"] + prog["free"])
+            or any(v["calc"] and v["calc"]["fn"] == "guard" for v in prog["vars"]))
         jit = bool(steps) and njit < jit_limit and pid % 3 == 0 and not numpy_dist
         njit += jit
         cs = run_program(prog, steps, pid, jit=jit)
@@ -198,8 +219,11 @@ def generate(ctx):
             ctx.hist("point." + c["mode"])
             if c.get("nonfinite"):
                 ctx.hist("skipped.nonfinite_log_density")
+            if c.get("window"):
+                ctx.hist("window.first_assignment_" + ("raised" if c["window"]["raised"][0] else "did_not_raise"))
+                ctx.hist("window.nodes_outdated" if c["window"]["any_outdated"] else "window.all_clean")
         cases.extend(cs)
-    distinct = {json.dumps([c["prog"], c["positions"]], sort_keys=True) for c in cases}
+    distinct = {json.dumps([c["prog"], c["positions"], c.get("build", 0)], sort_keys=True) for c in cases}
     nreads = sum(len(c["obs"]["reads"]) for c in cases if c["obs"])
     ctx.count(len(cases), len(distinct))
     ctx.hist("readings_of_the_three_totals", nreads)
@@ -222,6 +246,10 @@ def generate(ctx):
     ctx.tested_not_proved += [
         f"jax.jit(LieselInterface.update_state) shows the same three totals as the eager model on {njit} programs "
         "(included among the readings the shard lemmas compare; jit = identity is not proved)",
+        "fault followed by continued use (an assignment whose auto-update raises, then assignments to other variables): "
+        "'every distribution node that reports itself up to date holds the log-density at the current values; totals = sums "
+        "when nothing is outdated' is checked by the Python oracle only (a partially executed update is outside the Coq graph "
+        "model); the state after the next admissible assignment goes through the shard lemmas as usual",
         "tfp log-densities other than scalar Normal/Gamma/InverseGamma (Poisson, degenerate MVN, Softplus-transformed): "
         "compared with scipy/numpy closed forms by the oracle only",
         "ln Gamma(a) for concentrations that are not in {1/2,1,3/2,2,5/2,3} is supplied by Python's math.lgamma in the R-lemmas",
@@ -467,6 +495,13 @@ def oracle(c):
         return None
     f32 = c["prog"]["f32"]
     tol = EPS_O[f32] * (1 + ex["abs"])
+    if o.get("missing_user"):
+        return (f"the user-supplied log_{o['missing_user'][0]} node is not part of the model produced by build #{c.get('build', 0)} "
+                f"({c.get('how')}) of the history {c['prog'].get('builds')}: Model.log_{o['missing_user'][0]} = "
+                f"{fmt(o['reads'][0][o['missing_user'][0]])} is not the user node's value {ex['user'].get(o['missing_user'][0])}")
+    w = window_oracle(c)
+    if w:
+        return w
     want = {"prob": ("S", ex["prob"]), "lik": ("S", ex["lik"]), "prior": ("S", ex["prior"])}
     for w, u in ex["user"].items():
         want[w] = u
@@ -531,6 +566,51 @@ def oracle(c):
     return None
 
 
+def _same(a, b, tol):
+    """lists of floats equal up to tol; non-finite entries must match in kind"""
+    if isinstance(a, str) or isinstance(b, str) or len(a) != len(b):
+        return False
+    for x, y in zip(a, b):
+        if math.isfinite(x) and math.isfinite(y):
+            if abs(x - y) > tol * (1 + abs(y)):
+                return False
+        elif not ((math.isnan(x) and math.isnan(y)) or x == y):
+            return False
+    return True
+
+
+def window_oracle(c):
+    """after a rejected assignment and continued use: every distribution node that reports itself up to date holds
+    the log-density at the CURRENT values of its inputs; when no node is outdated the totals are the sums"""
+    w = c.get("window")
+    if not w:
+        return None
+    st = c["positions"][-1]
+    eps = 1e-4 if c["prog"]["f32"] else 1e-8
+    what = (f"after the rejected assignment {st['bad']} (raised: {w['raised'][0]}) and continued use {st['window']} "
+            f"(current values {w['current']})")
+    for n in w["nodes"]:
+        if n["outdated"]:
+            continue
+        if isinstance(n["fresh"], str) and isinstance(n["stored"], str):
+            continue        # a transient node: reading its value evaluates (and raises) now; nothing is cached
+        if isinstance(n["fresh"], str):
+            return f"{what}: distribution node {n['name']} reports itself up to date but its log-density {n['fresh']} at the current values"
+        want = n["fresh"] if n["per_obs"] else ([sum(n["fresh"])] if all(math.isfinite(x) for x in n["fresh"]) else None)
+        if want is None:
+            continue
+        if not _same(n["stored"], want, eps):
+            return (f"{what}: distribution node {n['name']} reports itself up to date and holds {n['stored']}, but the "
+                    f"log-density at the current values of its inputs is {want}")
+    if w["totals"] is not None:
+        fresh = {n["name"]: n["fresh"] for n in w["nodes"]}
+        if all(not isinstance(v, str) and all(math.isfinite(x) for x in v) for v in fresh.values()):
+            total = sum(sum(v) for v in fresh.values())
+            if "prob" not in c["exp"]["user"] and not _same(w["totals"]["prob"], [total], eps):
+                return f"{what}: no node is outdated, log_prob = {w['totals']['prob']} but the sum of the log-densities at the current values is {total}"
+    return None
+
+
 def klass(c):
     return None
 
@@ -545,7 +625,7 @@ def search(ctx, disagreeing):
 
 
 def slim(c):
-    return {"prog": c["prog"], "positions": c["positions"], "k": c["k"], "pid": c.get("pid"), "mode": c.get("mode"),
+    return {"prog": c["prog"], "positions": c["positions"], "k": c["k"], "build": c.get("build", 0), "pid": c.get("pid"), "mode": c.get("mode"),
             "features": features(c["prog"])}
 
 
@@ -561,11 +641,11 @@ def replay(rp) -> int:
         return 0
     prog, positions = c["prog"], c["positions"]
     cs = run_program(prog, positions, 0)
-    k = min(int(c.get("k", len(positions))), len(cs) - 1)
+    k = int(c.get("k", len(positions)))
     rc = 0
-    for case in cs[:k + 1]:
+    for case in [x for x in cs if x["k"] <= k or x["obs"] is None]:
         r = oracle(case) or py_agrees(case)
-        print(f"point {case['k']} ({case['mode']}): features {features(prog)}")
+        print(f"build #{case.get('build', 0)} point {case['k']} ({case['mode']}): features {features(prog)}")
         if case["obs"]:
             for rd in case["obs"]["reads"]:
                 print("   ", rd["how"], {w: fmt(rd[w]) for w in ("prob", "lik", "prior")})
